@@ -439,5 +439,13 @@ def r08_11(ctx):
      ctx.bad(construct, f"the condition is `{ast.unparse(cond)}`, not the conjunction of the definitions' dependencies: the stored value keeps being used (and "
              "written) after the option's `depends on` turned false", inj.loc(st[0])))
 
+def r08_12(ctx):
+    """R08.12 a replacing load starts from the file alone: whatever the file did not *set* is unset afterwards, decided on `_was_set`
+    (C05 R05.7) - a default-marked entry is not a user value, so a user value the session still holds must not survive it."""
+    from . import c05
+    from .common import delegate
+    delegate(ctx, c05.r05_7, lambda c: "replacing load" in c)
+
+
 def rules():
-    return [("R08.11", r08_11, 3), ("R08.10", r08_10, 3), ("R08.9", r08_9, 5), ("R08.1", r08_1, 2), ("R08.2", r08_2, 2), ("R08.3", r08_3, 8), ("R08.5", r08_5, 3), ("R08.6", r08_6, 8), ("R08.7", r08_7, 6), ("R08.8", r08_8, 1)]
+    return [("R08.12", r08_12, 1), ("R08.11", r08_11, 3), ("R08.10", r08_10, 3), ("R08.9", r08_9, 5), ("R08.1", r08_1, 2), ("R08.2", r08_2, 2), ("R08.3", r08_3, 8), ("R08.5", r08_5, 3), ("R08.6", r08_6, 8), ("R08.7", r08_7, 6), ("R08.8", r08_8, 1)]
